@@ -32,3 +32,13 @@ Theorem C17_closed fixer Va Vb P1 P2 k1 k2 tau1 tau2 ff t :
   let c1 := fun pi => Mwcs.memn pi (t_S t) in
   pred_closed (t_P t) c1 /\ forall c, pred_closed (t_P t) c -> (W (t_P t) (t_ws t) c <= W (t_P t) (t_ws t) c1)%Z.
 Proof. exact (irving_closed_subset_optimal P1 P2 _ _ ff t). Qed.
+
+From Coq Require Import Permutation.
+From SCK Require Import IrvRot.
+Theorem C17_final_value fixer Va Vb P1 P2 k1 k2 tau1 tau2 ff t :
+  double_tsf fixer Va Vb P1 P2 k1 k2 tau1 tau2 ff = Some t ->
+  perfectb (t_M0 t) = true -> exposed_allb (t_M0 t) (map (fun i => nth i (t_rots t) []) (t_S t)) = true ->
+  exists M', t_out t = Some M' /\ map fst M' = map fst (t_M0 t) /\ Permutation (map snd M') (map snd (t_M0 t)) /\
+    pvalue (sim_side fixer Va P1 k1 tau1) (sim_side fixer Vb P2 k2 tau2) M' =
+    (pvalue (sim_side fixer Va P1 k1 tau1) (sim_side fixer Vb P2 k2 tau2) (t_M0 t) + zsum (fun i => nth i (t_ws t) 0%Z) (t_S t))%Z.
+Proof. exact (irving_elimination_sound P1 P2 _ _ ff t). Qed.
